@@ -201,4 +201,7 @@ def run(ctx) -> None:
     from .common import include_rules
 
     include_rules(ctx, "c02", "C09.R1", only=("C02.R5",))
+    # the factory itself runs as a service task: teardown "waits for, and does not cancel" its
+    # tasks only if the service-task finalizer honours the teardown action on every exit route
+    include_rules(ctx, "c08", "C09.R5", only=("C08.R1",))
     rep.assume("anyio: a task group's `async with` exits only after all child tasks finished; cancellation is delivered only to the cancelled scope's task")
